@@ -71,7 +71,10 @@ Definition on_ob8 (T : N) (imm : bool) (k : trk) (o : obs) (x : m8) : option m8 
   | WaitRet w _ _ =>
       Some (mk8 (opened x) (nextc x) (tlast x) (anysub x) (burst x) (clean x)
                 (filter (fun v => negb (Nat.eqb v w)) (pendc x)) (ties x) (inflight x) (tend x))
-  | DaemonEnded => Some x
+  | DaemonEnded =>
+      (* the daemon ends only by a Shutdown of the script: a daemon that has ended otherwise (e.g. killed by a
+         failure of the buffered function) delivers nothing any more *)
+      if k_dead k then Some x else None
   | Hang => None
   end.
 
